@@ -1,0 +1,493 @@
+//go:build verif
+
+package ecs
+
+// Verification hooks. Compiled only with build tag `verif`.
+// Add-only: nothing in this file is referenced by the rest of the package.
+//
+// VerifCheckInvariants walks the hidden structures of a quiescent World and
+// reports the first structural inconsistency. VerifShape returns a canonical
+// digest of the hidden state for before/after comparison.
+
+import (
+	"fmt"
+	"hash/fnv"
+	"reflect"
+	"sort"
+	"strings"
+	"unsafe"
+)
+
+// VerifID converts a number to an ID.
+func VerifID(n int) ID { return ID{id: uint8(n)} }
+
+// VerifIDValue converts an ID to its number.
+func VerifIDValue(i ID) int { return int(i.id) }
+
+// VerifResID converts a number to a ResID.
+func VerifResID(n int) ResID { return ResID{id: uint8(n)} }
+
+// VerifResIDValue converts a ResID to its number.
+func VerifResIDValue(i ResID) int { return int(i.id) }
+
+// VerifEntity forges an entity handle.
+func VerifEntity(id, gen uint32) Entity { return Entity{id: eid(id), gen: gen} }
+
+func verifMaskString(m *Mask) string {
+	sb := strings.Builder{}
+	for i := 0; i < MaskTotalBits; i++ {
+		if m.Get(ID{id: uint8(i)}) {
+			fmt.Fprintf(&sb, "%d.", i)
+		}
+	}
+	return sb.String()
+}
+
+func verifBytes(p unsafe.Pointer, n int) []byte {
+	if n == 0 || p == nil {
+		return nil
+	}
+	return unsafe.Slice((*byte)(p), n)
+}
+
+func verifAllZero(b []byte) bool {
+	for _, x := range b {
+		if x != 0 {
+			return false
+		}
+	}
+	return true
+}
+
+// all archetypes of the world, in node order.
+func (w *World) verifArchetypes() []*archetype {
+	res := []*archetype{}
+	ln := int(w.nodes.Len())
+	for i := 0; i < ln; i++ {
+		nd := w.nodes.Get(int32(i))
+		if !nd.HasRelation {
+			if nd.archetype != nil {
+				res = append(res, nd.archetype)
+			}
+			continue
+		}
+		la := int(nd.archetypes.Len())
+		for j := 0; j < la; j++ {
+			res = append(res, nd.archetypes.Get(int32(j)))
+		}
+	}
+	return res
+}
+
+func verifFilterMatchesArch(f Filter, a *archetype) bool {
+	if !f.Matches(&a.Mask) {
+		return false
+	}
+	if rf, ok := f.(*RelationFilter); ok && a.node.HasRelation {
+		return rf.Target == a.RelationTarget
+	}
+	return true
+}
+
+// VerifCheckInvariants checks structural invariants I1..I7 of a quiescent world.
+func (w *World) VerifCheckInvariants() (err error) {
+	defer func() {
+		if r := recover(); r != nil {
+			err = fmt.Errorf("INV panic while walking structures: %v", r)
+		}
+	}()
+	return w.verifCheckInvariants()
+}
+
+func (w *World) verifCheckInvariants() error {
+	p := &w.entityPool
+	nEnt := len(p.entities)
+	if len(w.entities) != nEnt {
+		return fmt.Errorf("I1 len(world.entities)=%d != len(pool.entities)=%d", len(w.entities), nEnt)
+	}
+	if len(w.targetEntities.data)*wordSize < nEnt {
+		return fmt.Errorf("I1 target bitset covers %d bits < %d entities", len(w.targetEntities.data)*wordSize, nEnt)
+	}
+	if nEnt < 1 || p.entities[0].id != 0 {
+		return fmt.Errorf("I1 reserved zero entity damaged: %v", p.entities[0])
+	}
+
+	// I2 free list
+	avail := int(p.available)
+	if avail > nEnt-1 {
+		return fmt.Errorf("I2 available=%d > pool size %d", avail, nEnt-1)
+	}
+	dead := make(map[int]bool, avail)
+	cur := int(p.next)
+	for s := 0; s < avail; s++ {
+		if cur <= 0 || cur >= nEnt {
+			return fmt.Errorf("I2 free list step %d leaves the pool: id %d (len %d)", s, cur, nEnt)
+		}
+		if dead[cur] {
+			return fmt.Errorf("I2 free list visits id %d twice", cur)
+		}
+		dead[cur] = true
+		cur = int(p.entities[cur].id)
+	}
+
+	arches := w.verifArchetypes()
+	total := 0
+	for _, a := range arches {
+		if a.IsActive() {
+			total += int(a.len)
+		}
+	}
+	if nEnt-1-avail != total {
+		return fmt.Errorf("I2 alive count %d (len-1-available) != sum of table lengths %d", nEnt-1-avail, total)
+	}
+
+	// I1 index <-> tables
+	for id := 1; id < nEnt; id++ {
+		idx := &w.entities[id]
+		if dead[id] {
+			if idx.arch != nil {
+				return fmt.Errorf("I1 dead id %d still indexed into a table", id)
+			}
+			continue
+		}
+		if int(p.entities[id].id) != id {
+			return fmt.Errorf("I1 alive pool slot %d stores id %d", id, int(p.entities[id].id))
+		}
+		if idx.arch == nil {
+			return fmt.Errorf("I1 alive id %d has no table", id)
+		}
+		a := idx.arch
+		if !a.IsActive() {
+			return fmt.Errorf("I1 alive id %d indexed into an inactive table", id)
+		}
+		if int(idx.index) >= int(a.len) {
+			return fmt.Errorf("I1 alive id %d row %d >= table len %d", id, int(idx.index), int(a.len))
+		}
+		if got := a.GetEntity(idx.index); got != p.entities[id] {
+			return fmt.Errorf("I1 id %d: table row %d holds %v, pool holds %v", id, int(idx.index), got, p.entities[id])
+		}
+	}
+
+	// I3 tables
+	regCount := w.registry.Count()
+	for _, a := range arches {
+		nd := a.node
+		if nd == nil {
+			return fmt.Errorf("I3 table without node")
+		}
+		if int(a.len) > int(a.cap) {
+			return fmt.Errorf("I3 table %s len %d > cap %d", verifMaskString(&a.Mask), int(a.len), int(a.cap))
+		}
+		if len(a.layouts) < regCount {
+			return fmt.Errorf("I3 table %s has %d layouts < %d registered component types", verifMaskString(&a.Mask), len(a.layouts), regCount)
+		}
+		if len(a.layouts) == 0 || a.basePointer != unsafe.Pointer(&a.layouts[0]) {
+			return fmt.Errorf("I3 table %s base pointer does not point to its layouts", verifMaskString(&a.Mask))
+		}
+		if a.entityPointer != a.entityBuffer.Addr().UnsafePointer() || a.entityBuffer.Len() != int(a.cap) {
+			return fmt.Errorf("I3 table %s entity pointer/buffer mismatch", verifMaskString(&a.Mask))
+		}
+		if a.Mask != nd.Mask || a.HasRelationComponent != nd.HasRelation || (nd.HasRelation && a.RelationComponent != nd.Relation) {
+			return fmt.Errorf("I3 table %s access data disagrees with its node", verifMaskString(&a.Mask))
+		}
+		if len(a.buffers) != len(nd.Ids) {
+			return fmt.Errorf("I3 table %s has %d buffers for %d components", verifMaskString(&a.Mask), len(a.buffers), len(nd.Ids))
+		}
+		for i := range a.layouts {
+			lay := &a.layouts[i]
+			has := i < MaskTotalBits && nd.Mask.Get(ID{id: uint8(i)})
+			if !has {
+				if lay.pointer != nil {
+					return fmt.Errorf("I3 table %s has a layout for absent component %d", verifMaskString(&a.Mask), i)
+				}
+				continue
+			}
+			if lay.pointer == nil {
+				return fmt.Errorf("I3 table %s has no layout for component %d", verifMaskString(&a.Mask), i)
+			}
+		}
+		for i, id := range nd.Ids {
+			tp := nd.Types[i]
+			size, align := tp.Size(), uintptr(tp.Align())
+			size = (size + (align - 1)) / align * align
+			bi, ok := a.indices.Get(id.id)
+			if !ok || int(bi) != i {
+				return fmt.Errorf("I3 table %s buffer index of component %d wrong", verifMaskString(&a.Mask), int(id.id))
+			}
+			buf := a.buffers[i]
+			lay := &a.layouts[id.id]
+			if int(lay.itemSize) != int(size) {
+				return fmt.Errorf("I3 table %s component %d item size %d != %d", verifMaskString(&a.Mask), int(id.id), int(lay.itemSize), int(size))
+			}
+			if buf.Type().Elem() != tp {
+				return fmt.Errorf("I3 table %s component %d buffer has type %v, want %v", verifMaskString(&a.Mask), int(id.id), buf.Type().Elem(), tp)
+			}
+			if lay.pointer != buf.Addr().UnsafePointer() {
+				return fmt.Errorf("I3 table %s component %d layout does not point to its buffer", verifMaskString(&a.Mask), int(id.id))
+			}
+			if size == 0 {
+				continue
+			}
+			if buf.Len() != int(a.cap) {
+				return fmt.Errorf("I3 table %s component %d buffer len %d != cap %d", verifMaskString(&a.Mask), int(id.id), buf.Len(), int(a.cap))
+			}
+			tail := verifBytes(unsafe.Add(lay.pointer, int(size)*int(a.len)), int(size)*(int(a.cap)-int(a.len)))
+			if !verifAllZero(tail) {
+				return fmt.Errorf("I3 table %s (target %v) component %d: vacated rows >= len %d are not zeroed", verifMaskString(&a.Mask), a.RelationTarget, int(id.id), int(a.len))
+			}
+		}
+	}
+
+	// I4 relation nodes / I5 graph
+	nNodes := int(w.nodes.Len())
+	seen := map[Mask]int{}
+	for i := 0; i < nNodes; i++ {
+		nd := w.nodes.Get(int32(i))
+		if j, ok := seen[nd.Mask]; ok {
+			return fmt.Errorf("I5 nodes %d and %d share mask %s", j, i, verifMaskString(&nd.Mask))
+		}
+		seen[nd.Mask] = i
+		if nd.Mask.TotalBitsSet() != len(nd.Ids) {
+			return fmt.Errorf("I5 node %d Ids do not cover its mask", i)
+		}
+		prev := -1
+		for _, id := range nd.Ids {
+			if int(id.id) <= prev || !nd.Mask.Get(id) {
+				return fmt.Errorf("I5 node %d Ids unsorted or not in mask", i)
+			}
+			prev = int(id.id)
+		}
+		rels := nd.Mask.And(&w.registry.IsRelation)
+		if nd.HasRelation != !rels.IsZero() {
+			return fmt.Errorf("I5 node %s relation flag %v disagrees with registry", verifMaskString(&nd.Mask), nd.HasRelation)
+		}
+		if nd.HasRelation && (rels.TotalBitsSet() != 1 || !rels.Get(nd.Relation)) {
+			return fmt.Errorf("I5 node %s relation component %d disagrees with registry", verifMaskString(&nd.Mask), int(nd.Relation.id))
+		}
+		for c := 0; c < MaskTotalBits; c++ {
+			nb, ok := nd.neighbors.Get(uint8(c))
+			if !ok {
+				continue
+			}
+			want := nd.Mask
+			want.Set(ID{id: uint8(c)}, !nd.Mask.Get(ID{id: uint8(c)}))
+			if nb == nil || nb.Mask != want {
+				return fmt.Errorf("I5 node %s neighbor via %d has wrong mask", verifMaskString(&nd.Mask), c)
+			}
+			back, ok := nb.neighbors.Get(uint8(c))
+			if !ok || back != nd {
+				return fmt.Errorf("I5 node %s neighbor link via %d not symmetric", verifMaskString(&nd.Mask), c)
+			}
+		}
+		if !nd.HasRelation {
+			if nd.IsActive && (nd.archetype == nil || !nd.archetype.IsActive() || w.archetypes.Get(nd.archetype.index) != nd.archetype) {
+				return fmt.Errorf("I4 active node %s has no registered table", verifMaskString(&nd.Mask))
+			}
+			continue
+		}
+		la := int(nd.archetypes.Len())
+		active := 0
+		for j := 0; j < la; j++ {
+			a := nd.archetypes.Get(int32(j))
+			if a.IsActive() {
+				active++
+				if int(a.index) != j {
+					return fmt.Errorf("I4 node %s table %d carries index %d", verifMaskString(&nd.Mask), j, int(a.index))
+				}
+				if m, ok := nd.archetypeMap[a.RelationTarget]; !ok || m != a {
+					return fmt.Errorf("I4 node %s active table for target %v not in target map", verifMaskString(&nd.Mask), a.RelationTarget)
+				}
+			} else {
+				if a.len != 0 {
+					return fmt.Errorf("I4 node %s retired table %d is not empty (%d)", verifMaskString(&nd.Mask), j, int(a.len))
+				}
+			}
+		}
+		if len(nd.archetypeMap) != active {
+			return fmt.Errorf("I4 node %s target map has %d entries, %d active tables", verifMaskString(&nd.Mask), len(nd.archetypeMap), active)
+		}
+		if active+len(nd.freeIndices) != la {
+			return fmt.Errorf("I4 node %s active %d + free %d != tables %d", verifMaskString(&nd.Mask), active, len(nd.freeIndices), la)
+		}
+		fr := map[int]bool{}
+		for _, f := range nd.freeIndices {
+			fi := int(f)
+			if fi < 0 || fi >= la {
+				return fmt.Errorf("I4 node %s free list holds index %d (tables %d)", verifMaskString(&nd.Mask), fi, la)
+			}
+			if fr[fi] {
+				return fmt.Errorf("I4 node %s free list holds index %d twice", verifMaskString(&nd.Mask), fi)
+			}
+			fr[fi] = true
+			if nd.archetypes.Get(int32(fi)).IsActive() {
+				return fmt.Errorf("I4 node %s free list holds active table %d", verifMaskString(&nd.Mask), fi)
+			}
+		}
+	}
+
+	// I6 cache
+	for i := range w.filterCache.filters {
+		e := &w.filterCache.filters[i]
+		if idx, ok := w.filterCache.indices[e.ID]; !ok || idx != i {
+			return fmt.Errorf("I6 cache entry %d (id %d) not indexed correctly", i, int(e.ID))
+		}
+		in := map[*archetype]int{}
+		for pos, a := range e.Archetypes.pointers {
+			if a == nil {
+				return fmt.Errorf("I6 cached filter %d lists nil at %d", int(e.ID), pos)
+			}
+			if _, dup := in[a]; dup {
+				return fmt.Errorf("I6 cached filter %d lists table %s (target %v) twice", int(e.ID), verifMaskString(&a.Mask), a.RelationTarget)
+			}
+			in[a] = pos
+			if !a.IsActive() {
+				return fmt.Errorf("I6 cached filter %d lists retired table %s", int(e.ID), verifMaskString(&a.Mask))
+			}
+			if !verifFilterMatchesArch(e.Filter, a) {
+				return fmt.Errorf("I6 cached filter %d lists non-matching table %s (target %v)", int(e.ID), verifMaskString(&a.Mask), a.RelationTarget)
+			}
+		}
+		for _, a := range arches {
+			if !a.IsActive() || !verifFilterMatchesArch(e.Filter, a) {
+				continue
+			}
+			if _, ok := in[a]; !ok {
+				return fmt.Errorf("I6 cached filter %d misses matching table %s (target %v, len %d)", int(e.ID), verifMaskString(&a.Mask), a.RelationTarget, int(a.len))
+			}
+		}
+		if e.Indices != nil {
+			n := 0
+			for pos, a := range e.Archetypes.pointers {
+				if !a.HasRelation() {
+					continue
+				}
+				n++
+				if ip, ok := e.Indices[a]; !ok || ip != pos {
+					return fmt.Errorf("I6 cached filter %d removal index lacks/misplaces table %s (target %v) at %d", int(e.ID), verifMaskString(&a.Mask), a.RelationTarget, pos)
+				}
+			}
+			if n != len(e.Indices) {
+				return fmt.Errorf("I6 cached filter %d removal index has %d entries for %d relation tables", int(e.ID), len(e.Indices), n)
+			}
+		}
+	}
+
+	// I7 locks
+	bp := &w.locks.bitPool
+	held := w.locks.locks.TotalBitsSet()
+	if held != int(bp.length)-int(bp.available) {
+		return fmt.Errorf("I7 %d lock bits set, pool says handed out %d - recycled %d", held, int(bp.length), int(bp.available))
+	}
+	fb := map[int]bool{}
+	c := int(bp.next)
+	for s := 0; s < int(bp.available); s++ {
+		if c >= int(bp.length) {
+			return fmt.Errorf("I7 recycled lock bit %d was never handed out", c)
+		}
+		if fb[c] {
+			return fmt.Errorf("I7 recycled lock bit %d listed twice", c)
+		}
+		fb[c] = true
+		if w.locks.locks.Get(ID{id: uint8(c)}) {
+			return fmt.Errorf("I7 recycled lock bit %d is still set", c)
+		}
+		c = int(bp.bits[c])
+	}
+	return nil
+}
+
+// VerifShape returns a canonical digest of the hidden state, as (core, aux).
+func (w *World) VerifShape() (string, string) {
+	core := strings.Builder{}
+	aux := strings.Builder{}
+	p := &w.entityPool
+	fmt.Fprintf(&core, "pool next=%d avail=%d ents=", int(p.next), int(p.available))
+	for _, e := range p.entities {
+		fmt.Fprintf(&core, "%d:%d,", int(e.id), int(e.gen))
+	}
+	core.WriteString("\nidx ")
+	for i := 1; i < len(w.entities) && i < len(p.entities); i++ {
+		idx := &w.entities[i]
+		if idx.arch == nil {
+			core.WriteString("-,")
+			continue
+		}
+		fmt.Fprintf(&core, "%s@%d:%d/%d,", verifMaskString(&idx.arch.Mask), int(idx.arch.RelationTarget.id), int(idx.arch.RelationTarget.gen), int(idx.index))
+	}
+	core.WriteString("\ntables ")
+	lines := []string{}
+	for _, a := range w.verifArchetypes() {
+		if !a.IsActive() {
+			continue
+		}
+		h := fnv.New64a()
+		for _, id := range a.node.Ids {
+			lay := a.getLayout(id)
+			h.Write(verifBytes(lay.pointer, int(lay.itemSize)*int(a.len)))
+		}
+		h.Write(verifBytes(a.entityPointer, int(entitySize)*int(a.len)))
+		if a.len == 0 && a.node.HasRelation {
+			// empty relation tables are not observable
+			continue
+		}
+		lines = append(lines, fmt.Sprintf("%s@%d:%d len=%d h=%x", verifMaskString(&a.Mask), int(a.RelationTarget.id), int(a.RelationTarget.gen), int(a.len), h.Sum64()))
+	}
+	sort.Strings(lines)
+	core.WriteString(strings.Join(lines, ";"))
+	fmt.Fprintf(&core, "\nlocks %s", verifMaskString(&w.locks.locks))
+	fmt.Fprintf(&core, "\nregistry %d:", w.registry.Count())
+	for _, id := range w.registry.IDs {
+		fmt.Fprintf(&core, "%d=%v,", int(id), w.registry.Types[id])
+	}
+	fmt.Fprintf(&core, " rel=%s", verifMaskString(&w.registry.IsRelation))
+	fmt.Fprintf(&core, "\nresreg %d:", w.resources.registry.Count())
+	for _, id := range w.resources.registry.IDs {
+		fmt.Fprintf(&core, "%d=%v,", int(id), w.resources.registry.Types[id])
+	}
+	core.WriteString("\nres ")
+	for i, r := range w.resources.resources {
+		if r != nil {
+			fmt.Fprintf(&core, "%d=%x,", i, reflect.ValueOf(r).Pointer())
+		}
+	}
+	core.WriteString("\ncache ")
+	cl := []string{}
+	for i := range w.filterCache.filters {
+		e := &w.filterCache.filters[i]
+		set := []string{}
+		for _, a := range e.Archetypes.pointers {
+			if a == nil {
+				set = append(set, "nil")
+				continue
+			}
+			if a.len == 0 && a.node.HasRelation {
+				continue
+			}
+			set = append(set, fmt.Sprintf("%s@%d:%d", verifMaskString(&a.Mask), int(a.RelationTarget.id), int(a.RelationTarget.gen)))
+		}
+		sort.Strings(set)
+		cl = append(cl, fmt.Sprintf("%d[%s]", int(e.ID), strings.Join(set, " ")))
+	}
+	sort.Strings(cl)
+	core.WriteString(strings.Join(cl, ";"))
+	fmt.Fprintf(&core, "\nlistener %v", w.listener != nil)
+
+	fmt.Fprintf(&aux, "nodes=%d tables=%d entcap=%d", int(w.nodes.Len()), len(w.verifArchetypes()), cap(w.entities))
+	return core.String(), aux.String()
+}
+
+// VerifTableStats reports (active relation tables, retired relation tables, total tables).
+func (w *World) VerifTableStats() (active, retired, total int) {
+	for _, a := range w.verifArchetypes() {
+		total++
+		if !a.node.HasRelation {
+			continue
+		}
+		if a.IsActive() {
+			active++
+		} else {
+			retired++
+		}
+	}
+	return
+}
